@@ -430,13 +430,29 @@ def _cvc5(smt2, ms):
 def discharge(o, z3_ms=10000, cvc5_ms=20000, both=False):
     """decide one obligation.  unsat -> discharged; sat -> refuted with model; else unknown."""
     t = time.time()
+    o.solver = 'z3'
+    # lambda arrays (uninterpreted folds over derived sequences) make z3's array theory incomplete ("unknown" at once or after a
+    # long search): when the claim itself mentions none, first look for a proof from the path condition without those facts
+    # (dropping assumptions is sound for unsat)
+    if not _has_lambda(o.claim):
+        keep = [c for c in o.pc if not _has_lambda(c)]
+        if len(keep) < len(o.pc):
+            s0 = z3.Solver()
+            s0.set('timeout', z3_ms)
+            for c in keep:
+                s0.add(c)
+            s0.add(z3.Not(o.claim))
+            if s0.check() == z3.unsat:
+                o.status = 'discharged'
+                o.detail = 'discharged without the lambda-array facts of the path condition'
+                o.secs = time.time() - t
+                return o
     s = z3.Solver()
     s.set('timeout', z3_ms)
     for c in o.pc:
         s.add(c)
     s.add(z3.Not(o.claim))
     r = s.check()
-    o.solver = 'z3'
     if r == z3.unknown and time.time() - t < z3_ms / 2000.0:
         # the quantifier engine gave up early (not a timeout): retry with other seeds before handing over to cvc5
         for seed in (1, 2, 3):
